@@ -42,14 +42,26 @@ Proof.
     + intro H. destruct (IH _ _ H) as (n & -> & Hn). exists (S n). split; [reflexivity | exact Hn].
 Qed.
 (* a text without a comment opener reaches the parser unchanged *)
-Theorem strip_without_comments : forall fuel s, List.length s < fuel -> (forall k, starts open_mark (skipn k s) = false) -> strip fuel s = Some s.
+Theorem strip_without_comments : forall fuel s, List.length s < fuel ->
+  (forall k, starts open_mark (skipn k s) = false /\ starts line_mark (skipn k s) = false) -> strip fuel s = Some s.
 Proof.
-  induction fuel as [|f IH]; intros s Hl H; [lia|]. destruct s as [|c r]; [reflexivity|]. cbn [strip]. pose proof (H 0) as H0. cbn [skipn] in H0. rewrite H0.
+  induction fuel as [|f IH]; intros s Hl H; [lia|]. destruct s as [|c r]; [reflexivity|]. cbn [strip].
+  destruct (H 0) as [H0 H1]. cbn [skipn] in H0, H1. rewrite H0, H1.
   rewrite IH; [reflexivity | cbn in Hl; lia | intro k; apply (H (S k))].
+Qed.
+(* a line comment ends at the line break and nowhere else, whatever it contains *)
+Lemma drop_line_spec s : exists k, drop_line s = skipn k s /\ (forall j, j < k -> nth_error s j <> Some "010"%char) /\ (drop_line s = [] \/ nth_error s k = Some "010"%char).
+Proof.
+  induction s as [|c r (k & E & Hb & He)]; [exists 0; repeat split; [intros j Hj; lia | left; reflexivity]|]. cbn [drop_line].
+  destruct (Ascii.eqb_spec c "010") as [->|Hc].
+  - exists 0. repeat split; [intros j Hj; lia | right; reflexivity].
+  - exists (S k). repeat split; [exact E | | exact He]. intros [|j] Hj; cbn; [congruence | apply Hb; lia].
 Qed.
 Definition of_string (s : string) : text := list_ascii_of_string s.
 (* an unclosed comment is reported, not skipped *)
 Example unclosed_is_reported : strip 100 (of_string "int a; /* x * / int b;") = None.
+Proof. reflexivity. Qed.
+Example line_comment_hides_an_opener : strip 100 (of_string ("a // /* b" ++ String "010" "c")) = Some (of_string ("a " ++ String "010" "c")).
 Proof. reflexivity. Qed.
 Example stars_and_slashes :
   strip 100 (of_string "a/**/b /** d **/ c /*/ e */ f /***/ g") = Some (of_string "a b   c   f   g").
